@@ -596,7 +596,10 @@ function describeIndexObjectMember(
   key: Runtype,
   value: Runtype,
 ): { docText?: string; member: string } {
-  return describeObjectMember(ctx, `[K in ${describeTypeExpr(ctx, key)}]`, value);
+  const keyExpr = describeTypeExpr(ctx, key);
+  // `[K in string]` is a mapped type member and cannot stand next to named properties; an index signature can
+  const keyPart = keyExpr === "string" || keyExpr === "number" ? `[key: ${keyExpr}]` : `[K in ${keyExpr}]`;
+  return describeObjectMember(ctx, keyPart, value);
 }
 
 function renderObjectMember(member: { docText?: string; member: string }): string {
